@@ -40,9 +40,9 @@ type env struct {
 	buf     string         // name of the *bytes.Buffer parameter
 	vars    map[string]typ // parameters and locals in scope
 	frozen  map[string]bool
-	failC   string                                // constructor for a failure in this context
-	next    func(e *env, d int) string            // the end of the list (and continue)
-	brk     func(e *env, d int) string            // break, nil where it is not allowed
+	failC   string                                 // constructor for a failure in this context
+	next    func(e *env, d int) string             // the end of the list (and continue)
+	brk     func(e *env, d int) string             // break, nil where it is not allowed
 	ret     func(e *env, d int, err string) string // return, nil where it is not allowed; err is "" for nil
 	inBody  bool                                   // inside a loop body
 	preLoop bool                                   // before the loop: declarations allowed
